@@ -1,2 +1,31 @@
+(* C18 — Reader limits hold and readers are torn down when the stream goes away. Only statements here. *)
 From Coq Require Import List ZArith.
-Require Import MTX.Model.PathSM.
+Require Import MTX.Lib.Trace MTX.Model.PathSM MTX.Proofs.PathSM MTX.Proofs.PathSM_Thms.
+Import ListNotations.
+Local Open Scope Z_scope.
+
+(* after every history (including held readers consumed when the stream becomes ready) *)
+Theorem C18_bounded : forall cf ops,
+  conf_ok cf = true -> c_maxr cf <> 0 ->
+  Z.of_nat (length (s_readers (final step (init_state cf) ops))) <= Z.max 0 (c_maxr cf).
+Proof. exact (c18_bounded true). Qed.
+Print Assumptions C18_bounded.
+
+Theorem C18_no_double_count : forall cf ops,
+  conf_ok cf = true -> NoDup (s_readers (final step (init_state cf) ops)).
+Proof. exact (c18_nodup true). Qed.
+Print Assumptions C18_no_double_count.
+
+(* re-adding an attached reader answers the stream and leaves the state unchanged *)
+Theorem C18_readd_unchanged : forall s q r g,
+  s_closed s = false -> s_stream s = Some g -> In r (s_readers s) ->
+  step s (AddReader q r) = (s, [EAnswer q (AStream g)]).
+Proof. exact (c18_readd_unchanged true). Qed.
+Print Assumptions C18_readd_unchanged.
+
+(* no reader is attached to a path without stream *)
+Theorem C18_readers_need_stream : forall cf ops,
+  conf_ok cf = true ->
+  let s := final step (init_state cf) ops in s_stream s = None -> s_readers s = [].
+Proof. exact (c18_readers_need_stream true). Qed.
+Print Assumptions C18_readers_need_stream.
